@@ -48,7 +48,7 @@ Proof. exact (cg_model_is_ref Srt Seqb n A P A_len P_len A_lin prm f x0 junk). Q
 Hypothesis P_lin : linear_on n P.
 Theorem C05_bicgstab_recurrence_partial prm f x0 junk nr r w :
   length f = n -> length x0 = n -> k_prologue norm_a prm f = Go nr ->
-  bicgstab A P prm f x0 junk = (KOk r, w) -> p_ca prm = false \/ k_it r <> 0 ->
+  bicgstab A P prm f x0 junk = (KOk r, w) ->
   k_res r = true_res norm_a A P (p_left prm) f (k_x r) / nr.
 Proof. exact (bicgstab_residual_truthful Srt Seqb n A P A_len P_len A_lin P_lin prm f x0 junk nr r w). Qed.
 End Ring.
